@@ -14,12 +14,14 @@ EDITORS = ["update_base_search", "clear_search", "update_unencoded_base_hash", "
            # the path builder of the single buffer, against Model/AggPath.lean (Props/C07.consume_prepared_path_is_path_state)
            "consume_prepared_path", "consume_prepared_path",
            # clear_pathname and the pathname setter on top of it (Model/AggPath.lean, Props/C03.aggregator_set_pathname_end_to_end)
-           "clear_pathname", "set_pathname", "set_pathname"]
+           "clear_pathname", "set_pathname", "set_pathname",
+           # the host setters (Model/AggHostSetter.lean; the model's IDNA parameter is answered by the real to_ascii)
+           "set_host", "set_hostname"]
 
 # the raw scheme editors leave `type` stale (parse_scheme_with_colon updates it itself); the setter-level operations that read
 # `type` (default port, special-ness of the current scheme) are therefore not compared after one of them
 RAW_SCHEME = ("set_scheme", "set_scheme_from_view_with_colon")
-READS_TYPE = ("set_port", "consume_prepared_path", "set_pathname")
+READS_TYPE = ("set_port", "consume_prepared_path", "set_pathname", "set_host", "set_hostname")
 
 
 def gen_arg(rng, ed):
@@ -51,6 +53,14 @@ def gen_arg(rng, ed):
             return rng.choice([b"", b"/", b"//", b"//x", b"/.//x", b"\\x", b"/\\x", b"x", b"\t", b"\t/\n/p", b"/a/../..//b", b"//a/..", b"/..//", b"?", b"#"])
         lead = rng.choice([b"", b"/", b"/", b"\\", b"//", b"\t/"])
         return lead + pathcorr.gen_input(rng)
+    if ed in ("set_host", "set_hostname"):
+        r = rng.random()
+        if r < 0.4:
+            return rng.choice([b"", b"h", b"EXAMPLE.org", b"a.b:8080", b"h:", b":80", b"h:99999", b"h:80x", b"[::1]", b"[::1]:81", b"[1::", b"a/b", b"a?b",
+                               b"a\\b", b"a#b:1", b"a\tb", b"1.2.3.4", b"0x7f.1:9", b"localhost", b"LOCALHOST:1", b"xn--a", "é.com".encode(), b"a%41b",
+                               b"a b", b"a@b", b"h:443", b"h:80", b"h:0", b"x" * 30, b"%", b"[a/b]", b"h:1#2"])
+        h = genlib.gen_host(rng)
+        return h + (genlib.gen_port(rng) if rng.random() < 0.4 else b"") + rng.choice([b"", b"", b"/p", b"?q", b"#f", b"\\x"])
     if ed == "set_port":
         return rng.choice([b"", b"0", b"80", b"443", b"21", b"8080", b"65535", b"65536", b"99999999999", b"8a", b"a8", b" 81", b"8\t1",
                            b"0080", b"00000000000000000443", b"-1", b"+1", b"1:2", b"1/", str(rng.randrange(70000)).encode()])
@@ -107,6 +117,24 @@ def explore(run, binp, cases):
     if dcrash:
         run.oblige("corr:L1 editors (driver)", False, str(dcrash)[:300])
         return
+    # host setters: unknown IDNA answers come back as "need-idna <domain>"; they are fetched from the real ada::idna::to_ascii
+    import wpt
+    idna_via = wpt.idna_via_harness(binp)
+    hints = {}
+    for _ in range(4):
+        need = sorted({unhx(a.split()[1]) for a in ans if a.startswith("need-idna ")} - set(hints))
+        if not need:
+            break
+        for d, o in zip(need, idna_via(need)):
+            hints[d] = o
+        redo = [i for i, a in enumerate(ans) if a.startswith("need-idna ")]
+        hs = " ".join(f"{hx(k)}={'!' if v is None else hx(v)}" for k, v in hints.items())
+        sub, dcrash = lib.run_lines(lib.driver_path(), [q[i] + " " + hs for i in redo], timeout=600)
+        if dcrash:
+            run.oblige("corr:L1 editors (driver)", False, str(dcrash)[:300])
+            return
+        for i, a in zip(redo, sub):
+            ans[i] = a
     res = {}
     for (ci, si, kind), a in zip(idx, ans):
         res[(ci, si, kind)] = a
